@@ -144,3 +144,56 @@ Proof.
       rewrite (Hoth t0 Hne). eapply P3_mono; [exact Hmono|]. exact (proj1 (proj2 (proj2 (Hall t0) x))).
     + destruct Hled as (A & B0 & C0 & D & E). auto.
 Qed.
+
+(* ------------------------------------------------------------------ no stale position (since the fix of the provisional persist) *)
+(* every persisted position is a GOOD one: it names a block that holds entries *)
+Definition PG (c : Cfg) (s : st) : Prop :=
+  forall t x p, ts_index (get_ts s t) = Some p -> PGood c (nrm x (get_ts s t)) p.
+
+Lemma PG_init c : PG c init.
+Proof. intros t x p H. discriminate. Qed.
+
+Lemma PGood_nonstale c T p : PGood c T p -> stale_p (memne T) p = false.
+Proof.
+  intros (j & b & Hb & Hpos & _). unfold stale_p. destruct (p_tail p); [|reflexivity]. cbn [andb].
+  apply negb_false_iff, existsb_exists. exists b. split; [eapply nth_error_In; eauto|lia].
+Qed.
+
+Lemma PG_nonstale c s : PG c s -> forall t p, ts_index (get_ts s t) = Some p -> stale_p (memne (get_ts s t)) p = false.
+Proof. intros H t p Hp. rewrite <- (nrm_memne false). eapply PGood_nonstale. now apply H. Qed.
+
+Lemma PGood_ext c T T' p : chain_of T' = chain_of T -> ts_writer T' = ts_writer T -> unread c T' = unread c T ->
+  PGood c T p -> PGood c T' p.
+Proof.
+  intros Hc Hw Hu (j & b & A1 & A2 & A3 & A4).
+  assert (Hwl : w_list T' = w_list T) by (unfold w_list; now rewrite Hw).
+  assert (Hm : memne T' = memne T) by (unfold memne; now rewrite Hc, Hwl).
+  exists j, b. rewrite Hm, Hc, Hu. auto.
+Qed.
+
+Lemma ledger_step_write_del g o r t : (match o with OAppend _ _ | OBatch _ _ => True | _ => False end) ->
+  l_del (lget (ledger_step g o r) t) = l_del (lget g t).
+Proof.
+  intros Ho. destruct o as [t0 e|t0 es| | | |]; try contradiction; destruct r; cbn [ledger_step]; try reflexivity;
+    (destruct (N.eq_dec t (t_id t0)) as [->|Hne]; [now rewrite lget_lset_same|now rewrite lget_lset_other by exact Hne]).
+Qed.
+
+(* the write side keeps positions good: the topic grows behind them *)
+Lemma PG_write c s s' g g' B Bb B' Bb' t :
+  cfg_ok c -> G c s g B Bb -> G c s' g' B' Bb' -> PG c s ->
+  (forall x, Grow (nrm x (get_ts s (t_id t))) (nrm x (get_ts s' (t_id t)))) ->
+  keep (get_ts s (t_id t)) (get_ts s' (t_id t)) ->
+  (forall t', t' <> t_id t -> get_ts s' t' = get_ts s t') ->
+  l_del (lget g' (t_id t)) = l_del (lget g (t_id t)) ->
+  PG c s'.
+Proof.
+  intros Hc (_ & _ & _ & _ & Hall) (_ & _ & _ & _ & Hall') Hpg Hgrow (_ & _ & K3) Hoth Hdel t0 x p Hp.
+  pose proof Hc as (Hh & _).
+  destruct (N.eq_dec t0 (t_id t)) as [->|Hne]; [|rewrite (Hoth t0 Hne) in *; now apply Hpg].
+  rewrite K3 in Hp. specialize (Hpg (t_id t) x p Hp).
+  destruct (proj2 (Hall (t_id t)) x) as (_ & _ & Hdl & Hs & Hu & _).
+  destruct (proj2 (Hall' (t_id t)) x) as (_ & _ & Hdl' & Hs' & Hu' & _).
+  pose proof (Hgrow x) as Hg. pose proof Hg as (_ & (es & Hes & _)).
+  eapply PGood_grow; [exact Hh|exact Hg|exact Hes| |exact Hpg].
+  rewrite Hu', Hu, Hdel, <- Hs', Hes, Hs. now rewrite skipn_app_le by exact Hdl.
+Qed.
